@@ -118,7 +118,9 @@ def random_cfg(rng, name, max_align_cost=True, unaligned=False):
     dyn = rng.choice(DYNS) if names else "none"
     dyn_names = None
     if names and rng.random() < 0.4:
-        dyn_names = sorted(rng.sample(names, rng.randint(1, len(names))))
+        # a lineshape can also be assigned to the production node (parent = initial state)
+        pool = names + [next(iter(r.initial_state.values())).name]
+        dyn_names = sorted(rng.sample(pool, rng.randint(1, len(pool))))
     return {"reaction": name, "keep": keep, "align": al, "scalar_m0": rng.random() < 0.4,
             "stable": stable, "couplings": rng.random() < 0.3,
             "ins_parent": rng.choice([None, True, False]), "ins_child": rng.choice([None, True, False]),
